@@ -16,6 +16,9 @@ from concurrent.futures import ThreadPoolExecutor
 
 VERIF = os.path.dirname(os.path.dirname(os.path.abspath(__file__)))
 SPEC = os.path.join(VERIF, "spec")
+# where evidence/ and replay/ are written: /verif, unless an evaluation run (bin/seed-eval2, bin/benign-eval)
+# redirects them so that it does not overwrite the files of the registered checks
+OUT = os.environ.get("VERIF_OUT", VERIF)
 HARNESS = os.path.join(VERIF, "harness")
 # the tree under verification; checks registered in MANIFEST.json use /repo itself (VERIF_REPO is only for
 # background runs against a snapshot of its HEAD)
@@ -331,7 +334,7 @@ def match_known(known, prop, sigs):
 
 
 def write_replay(prop, name, payload):
-    d = os.path.join(VERIF, "replay")
+    d = os.path.join(OUT, "replay")
     os.makedirs(d, exist_ok=True)
     safe = re.sub(r"[^A-Za-z0-9_.-]", "_", name)[:80]
     p = os.path.join(d, "%s-%s.json" % (prop, safe))
@@ -341,7 +344,7 @@ def write_replay(prop, name, payload):
 
 
 def write_evidence(prop, tier, seed, coverage, wall, violations, assumptions, level="model_checking"):
-    d = os.path.join(VERIF, "evidence")
+    d = os.path.join(OUT, "evidence")
     os.makedirs(d, exist_ok=True)
     ev = {"property_id": prop, "tier": tier, "seed": seed, "level": level, "coverage": coverage,
           "assumptions": assumptions, "wall_s": round(wall, 2), "violations": violations}
